@@ -76,6 +76,8 @@ impl DateTime {
     /// assert!(2021 < date_time.year());
     /// ```
     pub fn now() -> Self {
+        #[cfg(feature = "verif")]
+        use crate::verif::SystemTime;
         let duration = SystemTime::now()
             .duration_since(UNIX_EPOCH)
             .expect("Time went backwards");
